@@ -47,13 +47,12 @@ func (m *RefShard) evalRankLeaf(qe QueryEnv, q models.Query) (QueryResult, error
 		}
 		contrib = func(d float64) float64 { return -w * d }
 		dim, metric, quant := vecIndexInfo(sv)
-		var bucket map[string][]byte
-		if qe.Dump != nil {
-			bucket = qe.Dump[indexBucketName(qe.Schema, q.Property)]
-		}
-		vm := vectorMode(dim, metric, quant, bucket)
-		if vm.Opaque {
+		vm := vectorModeDump(dim, metric, quant, qe.Dump, indexBucketName(qe.Schema, q.Property))
+		if vm.Opaque || (vm.PQ != nil && vm.PQ.Problem != "") {
 			res.Ambiguous = "product-quantised distances"
+		}
+		if pqCosineUntrained(metric, quant, vm) {
+			vm = VecMode{Float: models.DistanceEuclidean} // the quantiser's documented substitute; C03/C04 own the finding
 		}
 		var filter *IDSet
 		if fq != nil {
@@ -95,7 +94,7 @@ func (m *RefShard) evalRankLeaf(qe QueryEnv, q models.Query) (QueryResult, error
 			res.Ambiguous = "text query analyses to zero terms"
 		}
 		want = map[uuid.UUID]float64{}
-		for id, s := range scores {
+		for id, s := range detRange(scores) {
 			want[id] = -s
 		}
 	default:
@@ -106,7 +105,7 @@ func (m *RefShard) evalRankLeaf(qe QueryEnv, q models.Query) (QueryResult, error
 		d  float64
 	}
 	cs := make([]cand, 0, len(want))
-	for id, d := range want {
+	for id, d := range detRange(want) {
 		cs = append(cs, cand{id, d})
 	}
 	sort.Slice(cs, func(i, j int) bool {
@@ -155,12 +154,12 @@ func (m *RefShard) EvalQuery(qe QueryEnv, q models.Query) (QueryResult, error) {
 		out := QueryResult{Set: map[uuid.UUID]bool{}, Ambiguous: amb}
 		if q.Property == "_or" {
 			for _, p := range parts {
-				for id := range p.Set {
+				for id := range detRange(p.Set) {
 					out.Set[id] = true
 				}
 			}
 		} else {
-			for id := range parts[0].Set {
+			for id := range detRange(parts[0].Set) {
 				all := true
 				for _, p := range parts[1:] {
 					if !p.Set[id] {
